@@ -11,11 +11,11 @@ from common import REPO
 READY = True
 
 META = {
-    "technique": "Lean 4 proof of the depth accounting of every native re-entry of the interpreter (weighted nesting <= limit for all traces incl. traces with Rust callbacks between the re-entries, exits restore the depth, decidable stack budget) + regenerated cost/site/exit-path tables, re-entry call graph of the whole crate with the charge of every edge, frame-size relevant declarations of eval_impl + differential runs of recursive program shapes in child processes: an instrumented build (verif_hooks: high-water marks, depth probes) for the accounting, builds WITHOUT hooks (opt-0 debug, opt-1 debug, release; 2 MiB threads and main thread) for the stack, with measured stack bytes per level",
+    "technique": "Lean 4 proof of the depth accounting of every native re-entry of the interpreter (weighted nesting <= limit for all traces incl. traces with Rust callbacks between the re-entries, exits restore the depth, decidable stack budget) + regenerated cost/site/exit-path tables, re-entry call graph of the whole crate with the charge of every edge, frame-size relevant declarations of eval_impl + differential runs of recursive program shapes in child processes: an instrumented build (verif_hooks: high-water marks, depth probes) for the accounting, builds WITHOUT hooks (opt-0 debug, opt-1 debug, release; 2 MiB threads and main thread) for the stack, with measured stack bytes per level; session 4: the charge of every edge recomputed from the regenerated ARGUMENTS of every push_frame/incr_depth/decr_depth call and proved independent of output/auto-escape/undefined mode/capture depth/fuel, the ambient configuration as a generator axis, the empty state, renders nested by Rust callbacks and the stacker configuration inside the model, the deepest leaf call of every builtin measured and part of the budget, C11_statement / C11_main",
     "category": "proof",
-    "text": "PARTIAL by nature. Kernel-checked (36 obligations): in the model of Context::{push_frame,incr_depth,decr_depth,check_depth,restore_stack_depth} and of the native re-entries of eval_impl (macro call, caller(), include/import, block call/self.x()/State::render_block, super()) every re-entry first passes a checked depth increase of its edge cost (macro MACRO_RECURSION_COST+2, include INCLUDE_RECURSION_COST, block/super 1; constants regenerated from source); returning, failing at any nesting depth below, and not finding a template all leave the caller's depth exactly as it was, without panic (leave_restores_context, failed_include_depth_restored, missing_include_depth_neutral); the sum of edge costs over the native nesting is <= the limit in every reachable state for every mixture of edges; nested activations <= limit; a run with >= limit pending re-entries cannot return ok and fails at the first attempt that does not fit; set_recursion_limit clamps to MAX_RECURSION=500. every_reentry_charged: in the regenerated call graph of the crate (every function from which eval_impl is reachable by static calls) the loop and its trampolines are called only by the four guarded functions (charges 6/10/1/1 computed from the source expressions = the model's costs) and by the root Executor::eval; wrappers (State::render_block, render_block_to_write, Macro::call, Template::render*, Expression::eval) and every function that hands the State to a callback (Value::call, call_method, State::call_macro/apply_filter/perform_test, builtin map/select) contain no depth operation (callbacks_depth_neutral); the seven functions of the crate that adjust a depth at all are tabled (depth_ops_confined); rust_callbacks_transparent: a trace with Rust callback frames between the depth events ends exactly like its depth events, so a recursion through Rust is charged on top of the depth the callback found; stack_budget_holds: if the decidable check budgetOK (entry overhead + MAX_RECURSION x max over the kinds P of ceil((bytes(kind) + H x callback bytes) / cost(kind)) < stack) is true for measured bytes, no mixture of re-entries of kinds P with <= H callbacks nested per activation overflows at any limit up to the default - the driver evaluates this very function on every run's two-limit measurements (limit 100 and 500, main thread, every pure cycle) for each build profile, 2 MiB and 8 MiB, and the result must be true for the kinds that are not known findings; frame_constants_tied: parameters, locals, fixed-size arrays (2 x MAX_LOCALS x 8 bytes) and inline attributes of eval_impl/vm are the regenerated ones, arrays x MAX_RECURSION within a quarter of 2 MiB, no measured frame smaller than its arrays. Tie: tables regenerated from vm/mod.rs, vm/context.rs, environment.rs, compiler/parser.rs (re-entry sites with guards, exit paths of perform_include, every site of the crate that creates a Context/State or raises the depth - each classified root/constructor/guarded -, depth check, limit source, clamp) and ~13000 (quick) recursive shapes per build: cycles over include/import/macro/call-block/block/super/recursive-loop edges and over edges that pass through Rust (State::call_macro/render_block/apply_filter/perform_test, Value::call/call_method, Rust filters/tests via map/select/filter blocks, nested call blocks), depth-neutral noise on every frame between depth probes, 1000-iteration drift loops, limits 0..usize::MAX, cloned environments, render/render_captured/render_captured_to/render_named_str/new_state entry points: mixed cycles over nodes that exist as macro and as block, reached through Rust callbacks (function / filter / test / object call / call_method -> State::render_block, render_block_to_write, call_macro, Value::call; through State::apply_filter / perform_test / builtin map / select), include lists with missing candidates / ignore missing / from-import on the cycle, Environment::empty() and the unconfigured default limit, super() 1000 times between depth probes: model-predicted outcome, high-water marks of ctx.depth()/nested eval_impl and of the callback frames on the stack equal the observed ones; model-free oracle: a recursion with more nested steps than the limit has units never completes. NOT proved: native stack bytes per re-entry and per parser level; measured each run on builds without hooks and reported. Known findings (same two causes): block calls/super() cost 1 depth unit per ~13.7 KB (opt-0) native re-entry (in the release profile a block re-entered through State::render_block under filter/test/object callbacks needs 4.3-5.1 KB per level: over 2 MiB at the default limit), and a loader-provided template is compiled on top of the running recursion with the parser's separate 150-level budget (C11_lazy_counterexample); see KNOWN_FINDINGS.jsonl.",
+    "text": "PARTIAL by nature. Kernel-checked (44 obligations; the 8 of session 4 first): edge_cost_state_independent - `enterA amb`, the re-entry computed from the regenerated cost expressions (table C11_COST_ARGS: every push_frame / incr_depth / decr_depth call of the crate outside Context, its argument term by term: constant / frame / caller's depth / opaque) evaluated in an ambient state (output discarding, capture depth, auto-escape, undefined mode, fuel, any other expression), is the same in any two ambient states for every accounting state and kind (proved from `every term is closed` alone, whatever the constants), IS the model's `enter` with the current constants, and a completed include releases what it charged; cost_sites_unconditional - the regenerated list of conditions (if / match headers, match arms; loops and closures listed) enclosing each depth operation is the expected one and none of their identifiers reads the ambient state; empty_state_accounting - from Template::new_state() (context without frame, no root activation) every re-entry is charged from depth 0: weighted nesting and native activations <= limit, leave restores, no panic (ReachE / Inv0: the whole invariant proof redone for the rootless chain); nested_renders_bounded - a render started by a Rust callback inside a render is a root (depth 1, own limit), every render on the native stack keeps the single-render invariant, R renders with limits <= M: weighted nesting <= R x M, activations <= R x max M 1, bytes <= rho x R x M (the library does not bound R: outside the property); stacker_configuration - with the feature the limit expression is `level` (regenerated), the accounting theorems hold for any limit, and if stackerOK (activation + H callback frames + deepest leaf <= red zone of stacker::maybe_grow, regenerated 32 KiB / 1 MiB segment, one site around eval_impl) then every activation finds its frame free at any nesting; stack_budget_holds_leaf - stack_budget_holds with the deepest leaf call on top; C11_statement (the property as stated over all traces of re-entries / frames / missing includes / Rust callbacks: no panic, stack in use < stack, unbounded recursion ends with the recursion error, limit <= MAX) and C11_main: C11_statement from the named hypotheses h_budget (budgetLeafOK on the measured bytes: VALIDATED every run by the driver) and h_kinds (re-entries only of kinds P = those that are not known findings); C11_main_accounting: the accounting half without any hypothesis. The earlier 36: in the model of Context::{push_frame,incr_depth,decr_depth,check_depth,restore_stack_depth} and of the native re-entries of eval_impl (macro call, caller(), include/import, block call/self.x()/State::render_block, super()) every re-entry first passes a checked depth increase of its edge cost (macro MACRO_RECURSION_COST+2, include INCLUDE_RECURSION_COST, block/super 1; constants regenerated from source); returning, failing at any nesting depth below, and not finding a template all leave the caller's depth exactly as it was, without panic (leave_restores_context, failed_include_depth_restored, missing_include_depth_neutral); the sum of edge costs over the native nesting is <= the limit in every reachable state for every mixture of edges; nested activations <= limit; a run with >= limit pending re-entries cannot return ok and fails at the first attempt that does not fit; set_recursion_limit clamps to MAX_RECURSION=500. every_reentry_charged: in the regenerated call graph of the crate (every function from which eval_impl is reachable by static calls) the loop and its trampolines are called only by the four guarded functions (charges 6/10/1/1 computed from the source expressions = the model's costs) and by the root Executor::eval; wrappers (State::render_block, render_block_to_write, Macro::call, Template::render*, Expression::eval) and every function that hands the State to a callback (Value::call, call_method, State::call_macro/apply_filter/perform_test, builtin map/select) contain no depth operation (callbacks_depth_neutral); the seven functions of the crate that adjust a depth at all are tabled (depth_ops_confined); rust_callbacks_transparent: a trace with Rust callback frames between the depth events ends exactly like its depth events, so a recursion through Rust is charged on top of the depth the callback found; stack_budget_holds: if the decidable check budgetOK (entry overhead + MAX_RECURSION x max over the kinds P of ceil((bytes(kind) + H x callback bytes) / cost(kind)) < stack) is true for measured bytes, no mixture of re-entries of kinds P with <= H callbacks nested per activation overflows at any limit up to the default - the driver evaluates this very function on every run's two-limit measurements (limit 100 and 500, main thread, every pure cycle) for each build profile, 2 MiB and 8 MiB, and the result must be true for the kinds that are not known findings; frame_constants_tied: parameters, locals, fixed-size arrays (2 x MAX_LOCALS x 8 bytes) and inline attributes of eval_impl/vm are the regenerated ones, arrays x MAX_RECURSION within a quarter of 2 MiB, no measured frame smaller than its arrays. Tie: tables regenerated from vm/mod.rs, vm/context.rs, environment.rs, compiler/parser.rs (re-entry sites with guards, exit paths of perform_include, every site of the crate that creates a Context/State or raises the depth - each classified root/constructor/guarded -, depth check, limit source, clamp) and ~13000 (quick) recursive shapes per build: cycles over include/import/macro/call-block/block/super/recursive-loop edges and over edges that pass through Rust (State::call_macro/render_block/apply_filter/perform_test, Value::call/call_method, Rust filters/tests via map/select/filter blocks, nested call blocks), depth-neutral noise on every frame between depth probes, 1000-iteration drift loops, limits 0..usize::MAX, cloned environments, render/render_captured/render_captured_to/render_named_str/new_state entry points: mixed cycles over nodes that exist as macro and as block, reached through Rust callbacks (function / filter / test / object call / call_method -> State::render_block, render_block_to_write, call_macro, Value::call; through State::apply_filter / perform_test / builtin map / select), include lists with missing candidates / ignore missing / from-import on the cycle, Environment::empty() and the unconfigured default limit, super() 1000 times between depth probes: model-predicted outcome, high-water marks of ctx.depth()/nested eval_impl and of the callback frames on the stack equal the observed ones; model-free oracle: a recursion with more nested steps than the limit has units never completes. NOT proved: native stack bytes per re-entry and per parser level; measured each run on builds without hooks and reported. Known findings (same two causes): block calls/super() cost 1 depth unit per ~13.7 KB (opt-0) native re-entry (in the release profile a block re-entered through State::render_block under filter/test/object callbacks needs 4.3-5.1 KB per level: over 2 MiB at the default limit), and a loader-provided template is compiled on top of the running recursion with the parser's separate 150-level budget (C11_lazy_counterexample); see KNOWN_FINDINGS.jsonl.",
     "design_ref": "DESIGN.md §3 C11",
-    "level_note": "The stack bytes per re-entry are MEASURED, NOT PROVED: the theorems bound the number and weighted sum of nested interpreter activations by the recursion limit for every mixture of edges; that this bound keeps the native stack below 2 MiB depends on compiler, profile and target and is only observed (child processes must not die by signal; bytes/level per edge kind and the margin 500 x max(bytes/cost) vs 2 MiB are in the evidence). The stack oracle (no death by signal) runs on builds of the crate WITHOUT verif_hooks; the instrumented build has larger frames and its overflows are only counted. Trusted: Lean kernel; hand models MJ/Model/Depth.lean, MJ/Model/DepthHop.lean of context.rs/vm re-entry bookkeeping and of callback frames (validated differentially: outcome, depth and nesting high-water marks equal on all generated shapes); regex translator lib/tables/c11.py; the verif_hooks counters. Not covered: recursion through user Rust callbacks that start a fresh render (classified as roots in context_sites_classified: they get a fresh budget), empty-state entry (new_state + render_block) only validated via a shift argument in the driver, the `stacker` feature, stack use of filters/tests/objects called at the bottom, platforms other than this x86-64 Linux toolchain.",
+    "level_note": "MOVED FROM VALIDATED TO PROVED in session 4 (the session-3 worker's uncommitted work was lost; redone): (1) that the charge of an edge does not depend on output state / auto-escape / undefined behaviour / capture depth / fuel was only exercised by a few shapes (filter / set blocks, from-import): now edge_cost_state_independent over the regenerated argument table C11_COST_ARGS + cost_sites_unconditional over the regenerated enclosing conditions, AND the ambient configuration is a generator axis of every stream (tokens ubs / ubc / ubl / fuel / aeh on every shape x limit, all five x every pure cycle); (2) the empty-state entry was a shift argument in the driver: now empty_state_accounting in the model (the driver still predicts by the shift; the theorem states the bounds directly); (3) Rust callbacks that start a fresh render were `classified as roots`: now nested_renders_bounded (fresh budget, product bound) + the stream `nest<R>` (the program inside R-1 renders started by a Rust function: same outcome and depth marks, R-1 more native activations); (4) the `stacker` feature was an assumption: now stacker_configuration over the regenerated table C11_STACKER + a stream on a build WITH the feature (release, no hooks; limits 500 / 2000 / 3000: outcome equals the model with the UNCLAMPED limit; children that die above the default limit are counted, not reported: a lazily compiled template at depth overflows there because the parser's recursion is not under maybe_grow - observation, outside the property's quantifier); (5) stack use of filters / tests / functions at the bottom was not covered: now every builtin of the regenerated name table C11_BUILTINS (89) is applied to a probing object that reports the stack pointer from its callbacks, the deepest excursion below a plain function call is the `leaf` of budgetLeafOK (stack_budget_holds_leaf), which is the obligation the driver evaluates (STILL MEASURED: the number itself; builtins that recurse without touching the object are not seen). Also repaired: the extractor did not strip `cfg(all(feature = \"verif_hooks\", ..))` statements (C18 hooks in Context::push_frame / pop_frame made pushFrameChecked false) and listed callees in set-iteration order (Tables.lean differed from run to run). The stack bytes per re-entry are MEASURED, NOT PROVED: the theorems bound the number and weighted sum of nested interpreter activations by the recursion limit for every mixture of edges; that this bound keeps the native stack below 2 MiB depends on compiler, profile and target and is only observed (child processes must not die by signal; bytes/level per edge kind and the margin 500 x max(bytes/cost) vs 2 MiB are in the evidence). The stack oracle (no death by signal) runs on builds of the crate WITHOUT verif_hooks; the instrumented build has larger frames and its overflows are only counted. Trusted: Lean kernel; hand models MJ/Model/Depth.lean, MJ/Model/DepthHop.lean of context.rs/vm re-entry bookkeeping and of callback frames (validated differentially: outcome, depth and nesting high-water marks equal on all generated shapes); regex translator lib/tables/c11.py; the verif_hooks counters. Not covered: how many renders an embedder's callbacks nest (R of nested_renders_bounded is unbounded by the library), leaf calls that recurse without calling into the probing object, user filters / objects other than the harness's, the segment allocation of `stacker` itself (trusted crate), platforms other than this x86-64 Linux toolchain. C11_main's hypotheses: h_budget VALIDATED per run (false for block / super kinds in the profiles of the known findings), h_kinds by choice of P; model = code validated differentially.",
 }
 
 TABLES = ["MACRO_RECURSION_COST", "INCLUDE_RECURSION_COST", "MAX_RECURSION_ENV", "C11_REENTRY_SITES",
@@ -93,6 +93,8 @@ PROFILES = {
     "release": dict(hooks=False, opt0=False, release=True, tiers=("quick", "thorough")),
     "debug": dict(hooks=False, opt0=False, release=False, tiers=("thorough",)),
     "hooksO0": dict(hooks=True, opt0=True, release=False, tiers=("thorough",)),
+    # minijinja with the `stacker` feature (release, no hooks): its own stream, see stacker_stream
+    "stacker": dict(hooks=False, opt0=False, release=True, tiers=(), stacker=True),
 }
 LAZY = "defgh"
 AMBIENT = {"ubs": "undefined=strict", "ubc": "undefined=chainable", "ubl": "undefined=semi-strict", "fuel": "fuel on", "aeh": "auto-escape html"}
@@ -108,9 +110,11 @@ def build_variant(r, name):
         return r.cargo_build("c11")
     env = dict(common.ENV)
     cmd = ["cargo", "build", "--offline", "--bin", "c11"]
-    target = common.CARGO_TARGET + "-c11" + ("" if p["hooks"] else "-nohooks") + ("-O0" if p["opt0"] else "")
+    target = common.CARGO_TARGET + "-c11" + ("" if p["hooks"] else "-nohooks") + ("-O0" if p["opt0"] else "") + ("-stacker" if p.get("stacker") else "")
     if not p["hooks"]:
         cmd.append("--no-default-features")
+    if p.get("stacker"):
+        cmd += ["--features", "minijinja/stacker"]
     if p["release"]:
         cmd.append("--release")
     if p["opt0"]:
@@ -257,7 +261,7 @@ def evaluate(r, profile, lines, model, stats, max_recursion, band_start=None):
             dd, nn = hwd, hwn
         else:
             dd, nn = (md or 0), (mn or 0)
-        if not crashed and budget == 0 and dd >= (50 if hooks else 400) and nbytes > 0 and fam != "N" and not is_lazy(shape) and not mode:
+        if not crashed and budget == 0 and dd >= (50 if hooks else 400) and nbytes > 0 and fam != "N" and not is_lazy(shape) and not mode and nest == 1:
             key = shape[:-1] if ("," not in shape and shape.endswith("0000")) else f"({fam}: mixed/with work/noise)"
             if fam == "S":
                 key = "S:super()"
@@ -296,7 +300,11 @@ def run(r):
               "nested data below/at/above the limit; x limits {1,2,10,100,500} (thorough: 1..500 step 7) x {main thread, 2 MiB thread} "
               "x unbounded / two terminating budgets (and budgets above the limit) x build profiles; mixed cycles X over macro/block nodes "
               "through Rust callbacks (19 edge kinds); include lists / ignore missing / from-import edges; Environment::empty() and the "
-              "unconfigured default limit; super() between depth probes; each case in a child process. A case is non-trivial when the "
+              "unconfigured default limit; super() between depth probes; the ambient configuration (undefined behaviour strict / chainable / "
+              "semi-strict, fuel tracking on, auto-escape html) rotating over every shape x limit and all of it x every pure cycle; every pure "
+              "cycle inside 2..4 renders nested by a Rust function; on a build WITH the `stacker` feature every pure cycle, super chains and "
+              "recursive loops at limits 500 / 2000 / 3000; every builtin filter / test / function on a probing object (leaf stack); "
+              "each case in a child process. A case is non-trivial when the "
               "run reaches Context::depth() >= 3 (or dies).")
     r.assumptions = [
         "stack bytes per re-entry are measured on this toolchain/target, not proved",
@@ -305,7 +313,8 @@ def run(r):
         "frame pushes/pops inside one interpreter activation are balanced (compiled code; C05)",
         "templates only: a Rust callback that starts a fresh render does not inherit the depth",
         "Rust callbacks of the embedder re-enter only through the State API and nest at most H = 2 deep per interpreter activation (stack budget); their own frames are measured for the harness's callbacks",
-        "the `stacker` feature is off (with it the limit is not clamped and the stack grows on demand)",
+        "builds without the `stacker` feature carry the stack oracle; the build with it is a stream of its own (limit not clamped; the property's limits are those up to the default)",
+        "the deepest leaf call is the deepest one that reaches a callback of the probing object",
     ]
     st = r.regen_tables(TABLES)
     max_recursion = st["items"].get("MAX_RECURSION_ENV") or 500
@@ -313,7 +322,11 @@ def run(r):
     # a broken table / proof / model tie is recorded in r.broken and the run goes on: the harness is
     # built and the oracle searches for a failing input in any case (correspondence only if the
     # model driver still builds)
+    stk = {}
+    stk_thread = threading.Thread(target=lambda: stk.__setitem__("exe", build_variant(r, "stacker")))
+    stk_thread.start()
     exes = {p: e for p, e in builds(r).items() if e is not None}
+    stk_thread.join()
     stats = {p: {"kinds": {}, "classes": {}, "overhead": 0, "lazy": {}, "points": {}} for p in exes}
 
     def drive(text):
@@ -440,10 +453,74 @@ def run(r):
         "two_MiB": TWO_MIB, "profiles": report,
     }
     r.extra["lean_snapshot_check"] = snapshot_check(report)
+    r.extra["stacker_configuration"] = stacker_stream(r, cases_text, drive, max_recursion, stk.get("exe"))
     leaf = leaf_measure(r, exes, st["items"].get("C11_BUILTINS") or [])
     r.extra["leaf_calls"] = leaf
     r.extra["stack_budget"] = stack_budget(r, stats, known_sites, drive, leaf)
     r.exhaustive = False
+
+
+def stacker_stream(r, cases_text, drive, max_recursion, exe):
+    """the `stacker` configuration: minijinja built with the feature (release, no hooks).  The limit is
+    not clamped there: every pure cycle, super chains and recursive loops at the default limit and at
+    limits above the maximum (2000, 3000) must end exactly where the model with the UNCLAMPED limit
+    (`setRecursionLimitCfg true`) says.  The property quantifies over limits up to the default: a child
+    that dies at a limit above it is counted, not reported."""
+    rep = {"cases": 0, "died_above_default_limit": 0}
+    if exe is None:
+        return rep
+    shapes = []
+    for line in (cases_text or "").splitlines():
+        shape, limit, budget, thread = line.split(" ")
+        if shape[0] in CYCLES and "," not in shape and shape.endswith("0000") and limit == "500" and budget == "0" and thread == "t2m":
+            shapes.append(shape)
+    cases = []
+    for sh in shapes:
+        cases += [f"{sh} 500 0 t2m+stk", f"{sh} 3000 0 t2m+stk", f"{sh} 2000 0 main+stk", f"{sh} 3000 37 t2m+stk", f"{sh} 501 170 t2m+stk"]
+    for n in (400, 2997, 2999, 3000, 3001, 3050):
+        cases += [f"S:{n}:0 3000 0 t2m+stk", f"L:{n}:0 3000 0 t2m+stk"]
+    # a lazily compiled template at depth: the parser's recursion is not under `maybe_grow`
+    for sh in ("M:M000d", "T:I000d", "B:B000d"):
+        cases += [f"{sh} 500 0 t2m+stk", f"{sh} 3000 0 t2m+stk"]
+    model = drive("\n".join(cases) + "\n")
+    rc, out, err = r.harness(exe, ["run"], inp="\n".join(cases) + "\n", timeout=3000)
+    lines = out.splitlines()
+    if rc != 0 or len(lines) != len(cases) or model is None or len(model) != len(cases):
+        r.broken.append(f"harness c11 (stacker) did not run its cases: rc {rc}, {len(lines)} of {len(cases)} lines")
+        return rep
+    for line, ml in zip(lines, model):
+        f = line.split("\t")
+        case, status = f[0], f[1]
+        shape, limit, budget, thread = parse_case(case)
+        mf = ml.split("\t")
+        ms = mf[1] if mf[0] == case else None
+        full = f"stacker {case}"
+        cls = class_of(shape)
+        lazy = is_lazy(shape)
+        r.count(full, nontrivial=True)
+        r.hist["profile"]["stacker"] += 1
+        r.hist["stacker_limit"][limit] += 1
+        r.hist["status"][status.split(":")[0] + (":" + status.split(":")[1] if status.startswith("err") else "")] += 1
+        rep["cases"] += 1
+        crashed = status.startswith(("signal", "exit", "panic"))
+        if crashed and limit > max_recursion:
+            rep["died_above_default_limit"] += 1
+            r.hist["stacker_died_above_default_limit(counted)"][("lazy-parse-at-depth/" if lazy else "") + cls] += 1
+            continue
+        if status.startswith("panic"):
+            r.oracle_failure(full, f"the recursive render panicked: {status}", f"panic:stacker:{cls}")
+        elif crashed:
+            site_cls = f"lazy-parse-at-depth/{cls}" if lazy and cls != CLASS_BX else cls
+            r.oracle_failure(full, f"child did not survive the recursive render: {status} (native stack overflow) instead of 'recursion limit exceeded'",
+                             f"stack-overflow:stacker:{thread.split('+')[0]}:{site_cls}")
+        else:
+            if status.startswith("err:other") or status.startswith("bad-case"):
+                r.oracle_failure(full, f"recursive render failed with {status}, not with the recursion error", f"wrong-error:{cls}")
+            if budget == 0 and shape[0] in CYCLES and status != "err:recursion" and not self_terminating(shape):
+                r.oracle_failure(full, f"unbounded recursion returned {status}", f"unbounded-recursion-not-cut:{cls}")
+            if ms is not None and status != ms:
+                r.model_disagreement(full, status, ms + " (limit not clamped)")
+    return rep
 
 
 def leaf_measure(r, exes, builtins):
